@@ -6,7 +6,7 @@ from .env import ToolError
 
 def available():
     """False when the library under test no longer compiles with the codec helpers (hooks level 'off'): no replay binary"""
-    return env.hooks_level() != "off"
+    return env.hooks_level() != "off" and env.rs_level() != "none"
 
 
 def run(requests, timeout=600):
